@@ -57,6 +57,14 @@ theorem parse_of_coerce (T : Table) (hw : wfTable2 T = true) (hdf : fieldDefault
     (coerce_shapeOk T true v rty.gql c hc hdk)
   simp only [parseD, this, hc, Option.map_some]
 
+/-- the same for the repaired `parse` of a supplied value (`parseK`: undeclared keys refused): a
+    value the specification coerces carries declared keys only -/
+theorem parseK_of_coerce (T : Table) (hw : wfTable2 T = true) (hdf : fieldDefaultsOk T) (rty : RTy)
+    (v c : GValue) (hc : coerce T true rty.gql v = some c) (hdk : distinctKeys v = true) :
+    parseK Defects.none T rty v = some (view T rty c) := by
+  rw [parseK_of_shapeOk _ _ _ _ (coerce_shapeOk T true v rty.gql c hc hdk)]
+  exact parse_of_coerce T hw hdf rty v c hc hdk
+
 /-- everything the request-level argument needs to know about the variables -/
 structure VarCtx (T : Table) (defs : List VarDef) (raw vars : List (String × GValue)) : Prop where
   nodup : nodupB (defs.map (·.name)) = true
@@ -126,7 +134,7 @@ theorem paramValue_eq (T : Table) (hw : wfTable2 T = true) (hdf : fieldDefaultsO
         paramValue Defects.none T defs raw provided a = (coerceArg T vars provided a).map (viewArg T a.ty) := by
       intro hnv hne
       obtain ⟨⟨c, hc⟩, hdk⟩ := lit_coerce T defs dv a.ty.gql _ hlk hnv
-      have hp := parse_of_coerce T hw hdf a.ty _ c (coerce_mono T _ _ _ hc) hdk
+      have hp := parseK_of_coerce T hw hdf a.ty _ c (coerce_mono T _ _ _ hc) hdk
       have hr := resolve_const defs raw dv hnv
       have hs := subst_const vars dv hnv
       cases dv with
@@ -155,11 +163,11 @@ theorem paramValue_eq (T : Table) (hw : wfTable2 T = true) (hdf : fieldDefaultsO
           · subst hv
             have := coerce_null_inv T true _ c hc
             subst this
-            simp only [paramValue, coerceArg, hl, hres, hev, hlv, null_parse]
+            simp only [paramValue, coerceArg, hl, hres, hev, hlv, parseK_null, null_parse]
             by_cases hnn : a.ty.gql.isNonNull = true <;> simp [hnn, viewArg, view]
           · have hcne := coerce_ne_null T true _ v c hv hc
             have hc' := usage_coerce T true vd a.ty.gql _ v c hlk hv hc
-            have hp := parse_of_coerce T hw hdf a.ty v c hc' (effVal_keys C vd hvd v hev)
+            have hp := parseK_of_coerce T hw hdf a.ty v c hc' (effVal_keys C vd hvd v hev)
             simp only [paramValue, coerceArg, hl, hres, hev, hlv, hp]
             rfl
     | null => exact constCase hfl (by simp)
